@@ -214,6 +214,12 @@ def base_class(run: Run):
     # the bytes default: the value arm for "everything else" renders python_type(default or 0); for bytes that is b'' whose str() is not base64
     tbl = next((n for n in loop.find_all(nodes.For) if J.expr_path(n.iter) == "method.input.required_fields"), None)
     handled = sorted({c.value for n in (tbl.find_all(nodes.Const) if tbl is not None else []) for c in [n] if isinstance(c.value, int)})
+    # the defaults table is computed from the primary binding; _get_unset_required_fields only looks at the JSON query dict, so a required field
+    # that the *selected additional* binding carries in the path is added again, with its default value
+    uses_primary_only = "for req_field in method.input.required_fields if req_field.name in method.query_params" in J.template_source(env, tname)
+    run.results.append(Result("rest.defaults:no-duplicate-of-a-field-bound-by-the-selected-binding", "open" if uses_primary_only else "unknown", "jinja-ast", 0, "structural",
+                              detail="table filter is `req_field.name in method.query_params` (primary binding); the unset-test does not see path-bound fields of an additional binding",
+                              group="rest.defaults:additional-bindings"))
     run.results.append(Result("rest.defaults:bytes-default-is-a-json-value", "discharged" if 12 in handled else "open", "jinja-ast", 0, "structural",
                               detail=f"type numbers given their own default arm: {handled}; TYPE_BYTES (12) falls to python_type(0) = b'', sent as the text \"b''\"",
                               group="rest.defaults:bytes-default"))
@@ -322,6 +328,42 @@ def stage1(run: Run):
                           "(x in self.input.fields and x not in self.path_params and not (self.http_opt.get('body') is not None and self.http_opt.get('body') != '' and x == self.http_opt.get('body'))), str))"])
     m.add_contract(c)
     run.verify(m, c)
+    # Method.path_params: the path variables of the *primary* binding (regex over http_opt['url']; AST provenance - findall is outside pyvc)
+    f_pp, h_pp = find_def(W, "Method.path_params")
+    s_pp = ast.unparse(f_pp)
+    run.functions.append({"qualname": "Method.path_params", "source": W, "sha256_16": h_pp, "obligations": "AST pattern"})
+    run.table("rest.schema:path_params-are-the-variables-of-the-primary-binding", "return re.findall(pattern, self.http_opt['url'])" in s_pp and
+              "if self.http_opt is None:\n        return []" in s_pp and "additional_bindings" not in s_pp, detail=s_pp[-200:], group="rest.schema:path-params")
+    # HttpRule.try_parse_http_rule: one declared binding -> (verb, uri with python field names, body with python field name) or nothing
+    from vf.smt import Ref, fn
+    from gapic.utils import reserved_names
+    m2 = SchemaModel()
+    m2.classes["HttpRulePb"]["WhichOneof"] = "method"
+    m2.add_class("HttpRule", {"method": "Str", "uri": "Str", "body": "Opt[Str]", "_fields": ["method", "uri", "body"]})
+    m2.globals["cls"] = pyv(("class", "HttpRule"))
+    m2.globals["utils.RESERVED_NAMES"] = pyv(reserved_names.RESERVED_NAMES)
+    m2.globals["RESERVED"] = pyv(reserved_names.RESERVED_NAMES)
+    conv = fn("spec.convert_uri_fieldnames", z3.StringSort(), z3.StringSort())
+    m2.specs["convert"] = lambda ex, args, st: V(conv(args[0].term), STR)
+    m2.add_contract(Contract("utils.convert_uri_fieldnames", params={"uri": "Str"}, result="Str", kind="assumed", ensures=["result == convert(uri)"],
+                             note="rewrites reserved-word segments of the path variables; bounded stand-in under C12 (uri grammar)"))
+    m2.globals["utils.convert_uri_fieldnames"] = pyv(FuncV("contract", "utils.convert_uri_fieldnames", recv=None))
+    # protobuf's WhichOneof("pattern"): the name of the set member of the `pattern` oneof, or None (input; assumed shape)
+    m2.add_contract(Contract("HttpRulePb.WhichOneof", params={"self": "HttpRulePb", "group": "Str"}, result="Opt[Str]", kind="assumed",
+                             ensures=["result is None or result in ('get', 'put', 'post', 'delete', 'patch', 'custom')"],
+                             note="protobuf: WhichOneof returns the set member's field name or None"))
+    m2.add_spec("verb_uri", ["r", "v"], "r.get if v == 'get' else (r.put if v == 'put' else (r.post if v == 'post' else (r.delete if v == 'delete' else r.patch)))")
+    c2 = Contract("HttpRule.try_parse_http_rule", source=(W, "HttpRule.try_parse_http_rule"), params={"http_rule": "HttpRulePb"}, result="Opt[HttpRule]",
+                  ensures=["(result is None) == (http_rule.WhichOneof('pattern') is None or http_rule.WhichOneof('pattern') == 'custom' or "
+                           "verb_uri(http_rule, http_rule.WhichOneof('pattern')) == '')",
+                           "implies(result is not None, result.method == http_rule.WhichOneof('pattern') and "
+                           "result.uri == convert(verb_uri(http_rule, http_rule.WhichOneof('pattern'))))",
+                           # the body names the request field by its python name: one trailing underscore on reserved words, nothing when absent
+                           "implies(result is not None, (result.body is None) == (http_rule.body == ''))",
+                           "implies(result is not None and http_rule.body != '', result.body == http_rule.body + "
+                           "('_' if (http_rule.body in RESERVED and not http_rule.body.endswith('_')) else ''))"])
+    m2.add_contract(c2)
+    run.verify(m2, c2)
     run.assume(*m.assumptions)
 
 
